@@ -688,6 +688,14 @@ class Emitter:
         for k, v in counts.items():
             self.rule_counts[k] = self.rule_counts.get(k, 0) + v
         for pat, repl, why, *opt in f.rewrites:
+            if callable(pat):
+                # a bracket-aware idiom rewrite (python function body -> (body, count)); `repl` is its
+                # human-readable description for the evidence
+                body, k = pat(body)
+                if k == 0:
+                    raise Inconclusive(f"lost anchor: {fnq}: idiom rewrite `{repl}` matched nothing")
+                self.local_rewrites.append({"fn": fnq, "pattern": repl, "replacement": "(see vx/specs)", "why": why, "count": k})
+                continue
             body, k = re.subn(pat, repl, body, flags=re.S)
             if k == 0 and opt and opt[0]:
                 # a pure desugaring (e.g. Option::map(closure) -> match): code that is already
